@@ -8,6 +8,7 @@ Helper lemmas for the whole-load theorems of C02 / C15:
 Nothing here mentions the specification; the hypotheses are explicit numeric facts.
 -/
 import ElfioVerif.Model.Load
+import ElfioVerif.Lemmas.LoadTie
 import ElfioVerif.Spec.Records
 set_option linter.unusedSimpArgs false
 set_option linter.unusedVariables false
@@ -314,7 +315,7 @@ def segApply (g : Seg) : Option (Option Bytes) → Seg × Bool
 theorem segLoadData_snd (c : Cls) (tr : List Trans) (ls : LoadSt) (g : Seg) :
     (segLoadData c tr ls g).2 = segApply g (segOutcome c tr ls.st g.stype g.filesz g.offset g.streamSize) := by
   unfold segLoadData segOutcome secOff segReadSt
-  cases c <;> simp only [] <;>
+  cases c <;> simp only [LoadTie.segDataOk_val, LoadTie.segSeekTo_val, LoadTie.segReadN_val] <;>
    (split
     · rfl
     · split
@@ -323,7 +324,7 @@ theorem segLoadData_snd (c : Cls) (tr : List Trans) (ls : LoadSt) (g : Seg) :
         · rfl
         · split
           · rfl
-          · split <;> split <;> simp_all [segApply])
+          · (repeat' split) <;> simp_all [segApply])
 
 theorem segReadSt_indep (s s' : IStream) (hd : s.data = s'.data) (hk : s.kind = s'.kind)
     (off size : BitVec 64) :
@@ -408,7 +409,9 @@ theorem secLoad_eq_ls (c : Cls) (enc : Enc) (tr : List Trans) (ls : LoadSt) (hdr
         let b := { decodeShdr c enc h.2.1 b0 with fileData := fileDataOf c tr h.1 (decodeShdr c enc h.2.1 b0) }
         if isLazy then (ls1, { b with addrSet := true })
         else ((secGetData c tr ls1 b).1, { (secGetData c tr ls1 b).2 with addrSet := true }) := by
-  unfold secLoad hdrRead_ls secInit sec64_load_eager
+  -- the two conditions of `section_impl::load` are the generated ones (Gen/SitesLoad.lean)
+  rw [LoadTie.secLoad_hand]
+  unfold hdrRead_ls secInit sec64_load_eager
   simp only [decodeShdr_isLoaded_ls]
   split
   · rfl
@@ -436,7 +439,8 @@ theorem segLoad_eq_ls (c : Cls) (enc : Enc) (tr : List Trans) (ls : LoadSt) (hdr
       let g := decodePhdr c enc (wr (List.replicate (phdrSize c) 0) 0 h.2.1) (segInit_ls h.2.2 isLazy)
       let ls1 : LoadSt := { ls with st := h.1 }
       if isLazy then (ls1, g, true) else segLoadData c tr ls1 g := by
-  unfold segLoad hdrRead_ls segInit_ls
+  rw [LoadTie.segLoad_hand]
+  unfold hdrRead_ls segInit_ls
   simp only [decodePhdr_isLoaded_ls]
   cases isLazy <;> rfl
 
@@ -833,7 +837,7 @@ theorem segLoadData_eq_ls (c : Cls) (tr : List Trans) (ls : LoadSt) (g : Seg) :
       if !r.1.fail then (ls', { g with data := some (r.2 ++ [0]), isLoaded := true }, true)
       else (ls', { g with data := none }, false) := by
   unfold segLoadData segReadSt secOff mergeFlags_ls
-  cases c <;> simp only [] <;>
+  cases c <;> simp only [LoadTie.segDataOk_val, LoadTie.segSeekTo_val, LoadTie.segReadN_val] <;>
    (split
     · rfl
     · split
@@ -842,7 +846,7 @@ theorem segLoadData_eq_ls (c : Cls) (tr : List Trans) (ls : LoadSt) (g : Seg) :
         · rfl
         · split
           · rfl
-          · split <;> split <;> simp_all)
+          · (repeat' split) <;> simp_all)
 
 /-- `segment_impl::load_data` when the file contains the segment's range -/
 theorem segLoadData_inside (c : Cls) (ls : LoadSt) (g : Seg)
